@@ -187,7 +187,7 @@ def _asks_close(r: dict) -> bool:
 
 
 QUICK = MODE["tier"] != "thorough"
-CUTMAX, CUTMUL = (10, 6) if QUICK else (60, 1)
+CUTMAX, CUTMUL = (5, 12) if QUICK else (60, 1)
 
 
 @harness(
@@ -195,11 +195,11 @@ CUTMAX, CUTMUL = (10, 6) if QUICK else (60, 1)
     dom={"n": (1, 3), "r0": (0, 5), "r1": (0, 5), "r2": (0, 5), "seg": (0, 2), "cut": (0, CUTMAX), "ai": (0, 4), "kmax": (0 if not QUICK else 1, 3), "flavour": (0, 1)},
     split={"r0": "each", "ai": "each", "flavour": "each"},
     thorough_split={"r0": "each", "ai": "each", "r1": "each"},
-    witnesses=[{"n": 3, "r0": 0, "r1": 1, "r2": 2, "seg": 0, "cut": 0, "ai": 0, "kmax": 3, "flavour": 0}, {"n": 2, "r0": 1, "r1": 3, "r2": 0, "seg": 1, "cut": 5, "ai": 1, "kmax": 1, "flavour": 0},
-               {"n": 3, "r0": 0, "r1": 0, "r2": 1, "seg": 0, "cut": 0, "ai": 0, "kmax": 3, "flavour": 1}],
+    witnesses=[{"n": 3, "r0": 0, "r1": 1, "r2": 0, "seg": 0, "cut": 0, "ai": 0, "kmax": 3, "flavour": 0}, {"n": 2, "r0": 1, "r1": 3, "r2": 0, "seg": 1, "cut": 5, "ai": 1, "kmax": 1, "flavour": 0},
+               {"n": 3, "r0": 0, "r1": 1, "r2": 0, "seg": 0, "cut": 0, "ai": 4, "kmax": 3, "flavour": 1}],
     budget={"quick": 240, "thorough": 900},
     per_path=120,
-    bounds="pipelines of 1..3 requests drawn from 6 templates (body/no body, Connection: close|keep-alive|absent, HTTP/1.0|1.1) x segmentation {all in one read, one cut at any of the first 60 offsets (quick: every 6th), one byte per read for the first 40 bytes} x 5 application variants (read then answer, answer before reading, never read the body, response head first and the rest after reading, answer and return only while the next request is in progress) x keep_alive_max_requests in {1,2,1000} (thorough also 3) x worker flavour {asyncio, trio: every primitive operation is a checkpoint}",
+    bounds="pipelines of 1..3 requests drawn from 6 templates (quick: in three-request pipelines the third repeats the first) (body/no body, Connection: close|keep-alive|absent, HTTP/1.0|1.1) x segmentation {all in one read, one cut at any of the first 60 offsets (quick: every 12th), one byte per read for the first 40 bytes} x 5 application variants (read then answer, answer before reading, never read the body, response head first and the rest after reading, answer and return only while the next request is in progress) x keep_alive_max_requests in {1,2,1000} (thorough also 3) x worker flavour {asyncio, trio: every primitive operation is a checkpoint}",
     encodes=["hypercorn/protocol/h11.py::H11Protocol._handle_events", "hypercorn/protocol/h11.py::H11Protocol._maybe_recycle", "hypercorn/protocol/h11.py::H11Protocol.stream_send",
              "hypercorn/protocol/h11.py::H11Protocol._create_stream", "hypercorn/protocol/http_stream.py::HTTPStream.app_send"],
     stubs=["tier B runtime"],
@@ -226,7 +226,10 @@ def pipeline(n, r0, r1, r2, seg, cut, ai, kmax, flavour="asyncio"):
     if QUICK and n == 3 and seg != 0:
         return True, {"skipped": "quick tier: three-request pipelines arrive in one read"}
     rs = (r0, r1, r2)
-    reqs = [REQS[conc(rs[i], 0, 5)] for i in range(n)]
+    idx = [conc(rs[i], 0, 5) for i in range(n)]
+    if QUICK and n == 3 and idx[2] != idx[0]:
+        return True, {"skipped": "quick tier: three-request pipelines repeat the first template as the third"}
+    reqs = [REQS[i] for i in idx]
     ai = conc(ai, 0, 4)
     kmax = [3, 1, 2, 1000][conc(kmax, 0, 3)]
     cutv = 0
